@@ -10,6 +10,19 @@ COMMON_NOTE = ("Trusted base: TLC 1.8 evaluating the TLA+ specification in /veri
                "assumption of DESIGN 2.5 for the exhaustive part; simulated / random traces go beyond it.")
 
 CHECKS = {
+ "C11": dict(engine="CpApr", design="3/C11",
+   text=("CpApr.tla: control skeleton of the three Poisson CP algorithms (redistribute mass into mode n, at most MaxInner "
+         "inner steps, normalise mass back, one diagnostic entry per outer iteration) model-checked by TLC for its mass "
+         "discipline, counting identities and termination; contract on the returned triple validated by TLC on traces "
+         "recorded from the real cp_apr over three algorithms x dense / sparse count data with empty slices and all-zero "
+         "fibres x orders 2-4 x iteration limits x inner limits x option sets x guesses with all-zero rows: rank/shape, "
+         "non-negativity, reported objective = independently recomputed Poisson log-likelihood, one non-negative KKT entry "
+         "per outer iteration, limits respected, not less likely than the start, data and guess untouched, diagnostics of "
+         "truncated runs prefix-consistent."),
+   technique="TLA+ control-skeleton spec CpApr model-checked with TLC; observation-contract trace validation by TLC on traces recorded from the real algorithms",
+   note=("Open known findings: pqnr raises 'L-BFGS first iterate is bad' on dense data with an all-zero slice (pinned upstream "
+         "as known to fail) and with stoptol = 0 at a stationary row.  The mass discipline inside a run is checked on the "
+         "specification only.  Trusted base: numpy log-likelihood oracle in harness/c11.py, TLC.")),
  "C14": dict(engine="Nvecs", design="3/C14",
    text=("Nvecs.tla (extending the exact class of Hosvd.tla): for tensors with diagonal integer Gram matrices rotated in "
          "mode n by a rational orthogonal matrix (identity, signed permutation, 3-4-5 rotation), the r leading mode-n "
